@@ -144,7 +144,7 @@ fn hist_2d_matrix<const K: usize, const K2: usize>(layout: u8) {
     kani::cover!(tally[1][1] == K + 1, "W: every point in cell (1,1)");
 }
 
-//@ prop=C11,C20 tier=quick mem=10 timeout=3000 inst="Histogram<u8> over a fixed 3x2-bin grid; observations = rows of a 2x2 F-order matrix, then one single insert" bounds="2 symbolic rows + 1 symbolic point; unwind 8"
+//@ prop=C11,C20:thorough tier=quick mem=10 timeout=3000 inst="Histogram<u8> over a fixed 3x2-bin grid; observations = rows of a 2x2 F-order matrix, then one single insert" bounds="2 symbolic rows + 1 symbolic point; unwind 8"
 #[kani::proof]
 #[kani::unwind(8)]
 fn c11_hist_2d_matrix_k2() {
